@@ -324,6 +324,12 @@ def gen_options(rng):
     }
 
 
+def mutate_kind(rng, m, k):
+    """second pass of one of the kinds that add an alternate stop, on an input without matrices"""
+    m2, _ = mutate(rng, m, only=k)
+    return m2, k
+
+
 def mutate(rng, inp, only=None):
     """malformed stream: one structural mutation of a valid-looking input"""
     m = copy.deepcopy(inp)
@@ -446,11 +452,20 @@ def mutate(rng, inp, only=None):
         v0["end_time"] = rfc(T0 + 8 * 3600)
         s0["target_arrival_time"] = rfc(T0)
         s0["late_arrival_time_penalty"] = rng.choice([1e308, 1e300])
+    elif k in ("initial_foreign_alternate", "precedes_alternate", "stop_alt_same_id") and m.get("alternate_stops") is None and \
+            (m.get("duration_matrix") is not None or m.get("distance_matrix") is not None):
+        # these kinds add an alternate stop: the matrices of the input have no row for it - inputs stay well-dimensioned
+        # (documented precondition), so the matrices go and the vehicles travel by speed
+        m.pop("duration_matrix", None)
+        m.pop("distance_matrix", None)
+        for v in ve:
+            v["speed"] = 10
+        return mutate_kind(rng, m, k)
     elif k == "initial_foreign_alternate" and len(ve) >= 2 and st:
         m["alternate_stops"] = [{"id": "altx", "location": {"lon": 7.3, "lat": 51.3}}]
         ve[0]["alternate_stops"] = ["altx"]
         ve[1].pop("alternate_stops", None)
-        ve[1]["initial_stops"] = [{"id": "altx", "fixed": rng.random() < 0.5}]
+        ve[1]["initial_stops"] = [{"id": "altx", "fixed": True}]      # fixed: whatever takes its place stays visible in every solution
     elif k == "precedes_alternate" and len(st) >= 2:
         m.setdefault("alternate_stops", [{"id": "altx", "location": {"lon": 7.3, "lat": 51.3}}])
         ve[0]["alternate_stops"] = [m["alternate_stops"][0]["id"]]
